@@ -444,8 +444,13 @@ def _r4(ctx, rep, eff):
         # chunk size flows from order_limit(package_type)
         lim = utext(i.iter.args[1]) if len(i.iter.args) > 1 else None
         src = None
+
+        def lowers_only(v):
+            # `limit = min(limit, x)`: the chunk size can only get smaller than the exchange's limit
+            return isinstance(v, ast.Call) and call_name(v) == "min" and isinstance(v.func, ast.Name) and \
+                any(utext(a) == lim for a in v.args)
         for s in walk_nodes(f.node.body, ast.Assign):
-            if utext(s.targets[0]) == lim:
+            if utext(s.targets[0]) == lim and not lowers_only(s.value):
                 src = s.value
         flow = (isinstance(src, ast.Call) and call_name(src) == "order_limit"
                 and len(src.args) == 1 and utext(src.args[0]) == ptype_p)
@@ -455,7 +460,8 @@ def _r4(ctx, rep, eff):
         rep.check(flow, "R4c", key(f, None, "chunk size is order_limit(package_type)"), f, i.carrier,
                   "chunk size expression: %s" % (utext(src) if src is not None else lim))
         nrebind = [s for s in walk_nodes(f.node.body, (ast.Assign, ast.AugAssign))
-                   if any(utext(t) == lim for t in (s.targets if isinstance(s, ast.Assign) else [s.target]))]
+                   if any(utext(t) == lim for t in (s.targets if isinstance(s, ast.Assign) else [s.target]))
+                   and not (isinstance(s, ast.Assign) and lowers_only(s.value))]
         rep.check(len(nrebind) <= 1, "R4c", key(f, None, "chunk size not rebound"), f)
     rep.check(good, "R4c", key(f, None, "one package per (version, chunk) with that version and type"), f, c, detail)
     # clear on every normal exit, parameter not rebound, no reordering
